@@ -134,14 +134,14 @@ Theorem methods_use_documented_slots : forall u d, In u usage_rows ->
 Proof.
   intros u d Hin Hd. pose proof usage_ok as H. apply andb_true_iff in H as [H _].
   pose proof (proj1 (forallb_forall _ _) H u Hin) as Hu. unfold row_ok in Hu. rewrite Hd in Hu.
-  apply andb_true_iff in Hu as [Hu _]. apply andb_true_iff in Hu as [Hf Ht]. split; assumption.
+  apply andb_true_iff in Hu as [Hu _]. apply andb_true_iff in Hu as [Hu _]. apply andb_true_iff in Hu as [Hf Ht]. split; assumption.
 Qed.
 
 Theorem methods_depend_on_documented_slot : forall u, In u usage_rows -> deps_ok u = true.
 Proof.
   intros u Hin. pose proof usage_ok as H. apply andb_true_iff in H as [H _].
   pose proof (proj1 (forallb_forall _ _) H u Hin) as Hu. unfold row_ok in Hu.
-  apply andb_true_iff in Hu as [_ Hd]. exact Hd.
+  apply andb_true_iff in Hu as [Hu _]. apply andb_true_iff in Hu as [_ Hd]. exact Hd.
 Qed.
 
 Theorem usage_rows_complete : forall p m v, In (p, m, v) doc_keys -> exists u, find_urow p m v usage_rows = Some u.
